@@ -394,12 +394,12 @@ type listEndpoint struct {
 
 var listEndpoints = []listEndpoint{
 	{"v2-transactions", "/api/ledger/v2/l1/transactions", "transactions", true, true,
-		[]string{"", `{"$match":{"reference":"r1"}}`, `{"$and":[{"$match":{"metadata[k]":"v"}},{"$gte":{"timestamp":"2023-01-01T00:00:00Z"}}]}`, `{"$match":{"account":"users:"}}`, `{"$or":[{"$match":{"source":"a"}},{"$match":{"destination":"b"}}]}`}},
+		[]string{"", `{"$match":{"reference":"r1"}}`, `{"$and":[{"$match":{"metadata[k]":"v"}},{"$gte":{"timestamp":"2023-01-01T00:00:00Z"}}]}`, `{"$match":{"account":"users:"}}`, `{"$or":[{"$match":{"source":"a"}},{"$match":{"destination":"b"}}]}`, `{"$not":{"$match":{"reference":"r1"}}}`, `{"$and":[{"$not":{"$match":{"account":"users:"}}},{"$match":{"metadata[k]":"v"}}]}`}},
 	{"v2-logs", "/api/ledger/v2/l1/logs", "logs", true, true, []string{"", `{"$gte":{"date":"2023-01-01T00:00:00Z"}}`, `{"$and":[{"$lt":{"date":"2024-01-01T00:00:00Z"}},{"$gte":{"date":"2023-01-01T00:00:00Z"}}]}`}},
-	{"v2-accounts", "/api/ledger/v2/l1/accounts", "accounts", true, false, []string{"", `{"$match":{"address":"users:"}}`, `{"$match":{"metadata[k]":"v"}}`, `{"$lt":{"balance[USD]":100}}`}},
+	{"v2-accounts", "/api/ledger/v2/l1/accounts", "accounts", true, false, []string{"", `{"$match":{"address":"users:"}}`, `{"$match":{"metadata[k]":"v"}}`, `{"$lt":{"balance[USD]":100}}`, `{"$not":{"$match":{"address":"users:"}}}`, `{"$not":{"$or":[{"$match":{"address":"a"}},{"$gte":{"balance[USD]":5}}]}}`}},
 	{"v1-transactions", "/api/ledger/l1/transactions", "transactions", false, true, []string{"", "reference=r1", "account=users:", "source=a&destination=b", "metadata[k]=v"}},
 	{"v1-logs", "/api/ledger/l1/logs", "logs", false, true, []string{"", "start_time=2023-01-01T00:00:00Z", "start_time=2023-01-01T00:00:00Z&end_time=2024-01-01T00:00:00Z"}},
-	{"v1-accounts", "/api/ledger/l1/accounts", "accounts", false, false, []string{"", "address=users:", "metadata[k]=v", "balance=10&balanceOperator=gte"}},
+	{"v1-accounts", "/api/ledger/l1/accounts", "accounts", false, false, []string{"", "address=users:", "metadata[k]=v", "balance=10&balanceOperator=gte", "balance=10&balanceOperator=ne", "balance=0&balanceOperator=e"}},
 }
 
 // spiceFilter: puts text into the filter whose bytes produce every base64 symbol (incl. the two that differ between the
